@@ -172,7 +172,7 @@ func (r *renderer) val(v ssa.Value) string {
 		return r.val(v.X) + ".(" + typeShort(v.AssertedType) + ")"
 	case *ssa.Extract:
 		if c, ok := v.Tuple.(*ssa.Call); ok {
-			if x, ok := helperResult(r, &c.Call, v.Index); ok {
+			if x, ok := helperResult(r, c, v.Index); ok {
 				return x
 			}
 		}
@@ -210,7 +210,7 @@ func (r *renderer) val(v ssa.Value) string {
 		return fmt.Sprintf("φ%s@%d", name, v.Block().Index)
 	case *ssa.Call:
 		if v.Call.Signature().Results().Len() == 1 {
-			if x, ok := helperResult(r, &v.Call, 0); ok {
+			if x, ok := helperResult(r, v, 0); ok {
 				return x
 			}
 		}
